@@ -96,7 +96,8 @@ def avg_post(ctx):
                     return G.spec_m_step(ctx_, [S], machine)
                 return G.spec_m_step(ctx_, statistics, machine)
             F = G.facts(extra_pos_apps={"n", "nb", "tb", "n0"}, extra_pos_syms={"t"}, dims={"B"})
-            cl = K.check_function(I, "gmm.m_step", build, spec, F, "C03.avg.%s.%s" % (label, trainer), state_names={0: "statistics", 1: "machine"})
+            cl = K.check_function(I, "gmm.m_step", build, spec, F, "C03.avg.%s.%s" % (label, trainer),
+                                  state_names={0: "statistics", 1: "machine"}, structural=False)
             out += cl
     avg = [c for c in out if c.name.endswith("result[1]")]
     rest = [c for c in out if c not in avg]
